@@ -22,6 +22,8 @@ Proof. destruct l; simpl; split; intro H; try discriminate; try congruence; exfa
 Lemma bufsize_pos : 0 < bufsize.
 Proof. unfold bufsize. apply Nat.lt_0_succ. Qed.
 
+Global Opaque bufsize.
+
 Lemma push_spec tin w tin' w' :
   push tin w = (tin', w') ->
   tin' ++ w' = tin ++ w /\ (w = [] -> w' = []) /\ length w' < bufsize.
@@ -109,4 +111,833 @@ Proof.
     split.
     + rewrite Q1. rewrite app_assoc. rewrite P1. rewrite <- app_assoc. reflexivity.
     + intro W. exfalso. apply F2. apply P2. exact W.
+Qed.
+
+(* ------------------------------------------------------------------ *)
+(* The invariant                                                        *)
+(* ------------------------------------------------------------------ *)
+
+Record Inv (c : cfg) (s : st) : Prop := mkInv
+  { i_c2t : t_in s ++ wbuf s ++ rbuf s ++ c2t_src s = c_sent s;
+    i_t2c : c_in s ++ t2c_src s = t_sent s;
+    i_nobuf : buffered c = false -> wbuf s = [];
+    i_d1 : dir1 s = Done -> c_wr_open s = false /\ rbuf s = [] /\ c2t_src s = [];
+    i_d1e : dir1 s = Done -> eos_prop c = true -> t_eos s = true /\ wbuf s = [];
+    i_d2 : dir2 s = Done -> t_wr_open s = false /\ t2c_src s = [];
+    i_d2e : dir2 s = Done -> eos_prop c = true -> c_eos s = true;
+    i_te : t_eos s = true -> dir1 s = Done /\ wbuf s = [];
+    i_ce : c_eos s = true -> dir2 s = Done;
+    i_cl : closed s = true -> dir1 s = Done /\ dir2 s = Done /\ t_eos s = true /\ c_eos s = true }.
+
+Lemma inv_init c e p : Inv c (init e p).
+Proof.
+  constructor; simpl; try discriminate; try reflexivity.
+  - rewrite app_nil_r. reflexivity.
+Qed.
+
+Ltac done_contra :=
+  match goal with
+  | H1 : dir1 ?s = Running, H2 : dir1 ?s = Done |- _ => rewrite H1 in H2; discriminate
+  | H1 : dir2 ?s = Running, H2 : dir2 ?s = Done |- _ => rewrite H1 in H2; discriminate
+  end.
+
+(* saturate implications whose premise is at hand, split, close by congruence *)
+Ltac sat :=
+  intros;
+  repeat match goal with
+  | H : ?A -> _, H' : ?A |- _ => specialize (H H')
+  end;
+  repeat match goal with H : _ /\ _ |- _ => destruct H end;
+  try done_contra; try discriminate; try congruence;
+  repeat split; try done_contra; try congruence; auto.
+
+Ltac inv_goals t1 t2 :=
+  constructor; simpl; [ t1 | t2 | sat | sat | sat | sat | sat | sat | sat | sat ].
+
+Ltac open_inv I := destruct I as [Ic2t It2c Inb Id1 Id1e Id2 Id2e Ite Ice Icl].
+
+Lemma inv_step c s l s' : Inv c s -> step c s l = Some s' -> Inv c s'.
+Proof.
+  intros I HS. destruct l.
+  - (* ClientSend *)
+    unfold step in HS. destruct (c_wr_open s) eqn:O; [|discriminate]. inversion HS; subst; clear HS.
+    open_inv I.
+    inv_goals ltac:(rewrite <- Ic2t; repeat rewrite <- app_assoc; reflexivity) ltac:(exact It2c).
+  - (* TargetSend *)
+    unfold step in HS. destruct (t_wr_open s) eqn:O; [|discriminate]. inversion HS; subst; clear HS.
+    open_inv I.
+    inv_goals ltac:(exact Ic2t) ltac:(rewrite <- It2c; repeat rewrite <- app_assoc; reflexivity).
+  - (* ClientShut *)
+    unfold step in HS. destruct (c_wr_open s) eqn:O; [|discriminate]. inversion HS; subst; clear HS.
+    open_inv I. inv_goals ltac:(exact Ic2t) ltac:(exact It2c).
+  - (* TargetShut *)
+    unfold step in HS. destruct (t_wr_open s) eqn:O; [|discriminate]. inversion HS; subst; clear HS.
+    open_inv I. inv_goals ltac:(exact Ic2t) ltac:(exact It2c).
+  - (* Drain1 *)
+    apply step_Drain1 in HS; [|apply I]. destruct HS as (R & NE & tin & w & E & C & NB). subst s'.
+    open_inv I.
+    inv_goals ltac:(rewrite <- Ic2t; rewrite app_assoc; rewrite C; repeat rewrite <- app_assoc; reflexivity)
+              ltac:(exact It2c).
+  - (* Copy1 *)
+    apply step_Copy1 in HS; [|apply I].
+    destruct HS as (R & RB & chunk & rest & tin & w & E & NE & E' & C & NB).
+    subst s'. open_inv I.
+    inv_goals ltac:(rewrite <- Ic2t; rewrite RB, E; simpl; rewrite app_assoc; rewrite C;
+                    repeat rewrite <- app_assoc; reflexivity)
+              ltac:(exact It2c).
+  - (* Eof1 *)
+    unfold step in HS.
+    destruct (phase_eqb (dir1 s) Running && is_nil (rbuf s) && is_nil (c2t_src s) && negb (c_wr_open s)) eqn:G;
+      [|discriminate]. bools. rename H into R, H2 into RB, H1 into SRC, H0 into O.
+    open_inv I. destruct (eos_prop c) eqn:EP; inversion HS; subst; clear HS.
+    + inv_goals ltac:(rewrite <- Ic2t; rewrite RB, SRC; repeat rewrite app_nil_r; reflexivity)
+                ltac:(exact It2c).
+    + inv_goals ltac:(rewrite <- Ic2t; rewrite RB, SRC; repeat rewrite app_nil_r; reflexivity)
+                ltac:(exact It2c).
+  - (* Copy2 *)
+    unfold step in HS. destruct (phase_eqb (dir2 s) Running) eqn:G; [|discriminate].
+    destruct (is_nil (firstn n (t2c_src s))) eqn:K; [discriminate|]. bools.
+    inversion HS; subst; clear HS. open_inv I.
+    inv_goals ltac:(exact Ic2t)
+              ltac:(rewrite <- It2c; rewrite <- app_assoc; rewrite firstn_skipn; reflexivity).
+  - (* Eof2 *)
+    unfold step in HS.
+    destruct (phase_eqb (dir2 s) Running && is_nil (t2c_src s) && negb (t_wr_open s)) eqn:G; [|discriminate].
+    bools. rename H into R, H1 into SRC, H0 into O.
+    inversion HS; subst; clear HS. open_inv I.
+    inv_goals ltac:(exact Ic2t) ltac:(rewrite <- It2c; rewrite SRC; reflexivity).
+    rewrite H0. reflexivity.
+  - (* Join *)
+    unfold step in HS.
+    destruct (phase_eqb (dir1 s) Done && phase_eqb (dir2 s) Done && negb (closed s)) eqn:G; [|discriminate].
+    bools. inversion HS; subst; clear HS. open_inv I.
+    inv_goals ltac:(rewrite <- Ic2t; rewrite <- app_assoc; reflexivity) ltac:(exact It2c).
+Qed.
+
+Lemma inv_run c tr : forall s s', Inv c s -> run c s tr = Some s' -> Inv c s'.
+Proof.
+  induction tr as [|l tr IH]; simpl; intros s s' I R.
+  - inversion R; subst; exact I.
+  - destruct (step c s l) as [s1|] eqn:HS; [|discriminate].
+    eapply IH; [eapply inv_step; eassumption|exact R].
+Qed.
+
+Definition reachable (c : cfg) (early peeked : list byte) (tr : list label) (s : st) : Prop :=
+  run c (init early peeked) tr = Some s.
+
+Lemma inv_reachable c e p tr s : reachable c e p tr s -> Inv c s.
+Proof. intro R. eapply inv_run; [apply inv_init|exact R]. Qed.
+
+Lemma run_app c tr1 : forall tr2 s s1 s2,
+  run c s tr1 = Some s1 -> run c s1 tr2 = Some s2 -> run c s (tr1 ++ tr2) = Some s2.
+Proof.
+  induction tr1 as [|l tr1 IH]; simpl; intros tr2 s s1 s2 R1 R2.
+  - inversion R1; subst; exact R2.
+  - destruct (step c s l) as [sx|]; [|discriminate]. eapply IH; eassumption.
+Qed.
+
+(* ------------------------------------------------------------------ *)
+(* Ghost fields are what the ends did                                   *)
+(* ------------------------------------------------------------------ *)
+
+Definition lbl_cbytes (l : label) : list byte := match l with ClientSend bs => bs | _ => [] end.
+Definition lbl_tbytes (l : label) : list byte := match l with TargetSend bs => bs | _ => [] end.
+Definition lbl_cshut (l : label) : bool := match l with ClientShut => true | _ => false end.
+Definition lbl_tshut (l : label) : bool := match l with TargetShut => true | _ => false end.
+
+Lemma ghost_step c s l s' :
+  step c s l = Some s' ->
+  c_sent s' = c_sent s ++ lbl_cbytes l /\ t_sent s' = t_sent s ++ lbl_tbytes l /\
+  c_wr_open s' = c_wr_open s && negb (lbl_cshut l) /\
+  t_wr_open s' = t_wr_open s && negb (lbl_tshut l).
+Proof.
+  intro HS. destruct l; simpl.
+  - unfold step in HS. destruct (c_wr_open s) eqn:O; [|discriminate]. inversion HS; subst; simpl.
+    rewrite app_nil_r, andb_true_r. auto.
+  - unfold step in HS. destruct (t_wr_open s) eqn:O; [|discriminate]. inversion HS; subst; simpl.
+    rewrite app_nil_r, andb_true_r. auto.
+  - unfold step in HS. destruct (c_wr_open s) eqn:O; [|discriminate]. inversion HS; subst; simpl.
+    repeat rewrite app_nil_r. rewrite andb_true_r. auto.
+  - unfold step in HS. destruct (t_wr_open s) eqn:O; [|discriminate]. inversion HS; subst; simpl.
+    repeat rewrite app_nil_r. rewrite andb_true_r. auto.
+  - unfold step in HS.
+    destruct (phase_eqb (dir1 s) Running && negb (is_nil (rbuf s))); [|discriminate].
+    destruct (buffered c).
+    + destruct (push (t_in s) (wbuf s ++ rbuf s)). inversion HS; subst; simpl.
+      repeat rewrite app_nil_r. repeat rewrite andb_true_r. auto.
+    + inversion HS; subst; simpl. repeat rewrite app_nil_r. repeat rewrite andb_true_r. auto.
+  - unfold step in HS.
+    destruct (phase_eqb (dir1 s) Running && is_nil (rbuf s)); [|discriminate].
+    destruct (push (t_in s) (wbuf s)) as [tin0 w0].
+    destruct (negb (buffered c) || is_nil w0).
+    + destruct (is_nil (firstn n (c2t_src s))); [discriminate|]. inversion HS; subst; simpl.
+      repeat rewrite app_nil_r. repeat rewrite andb_true_r. auto.
+    + destruct (push tin0 (w0 ++ firstn (Nat.min n (bufsize - length w0)) (c2t_src s))).
+      destruct (is_nil (firstn (Nat.min n (bufsize - length w0)) (c2t_src s))); [discriminate|].
+      inversion HS; subst; simpl. repeat rewrite app_nil_r. repeat rewrite andb_true_r. auto.
+  - unfold step in HS.
+    destruct (phase_eqb (dir1 s) Running && is_nil (rbuf s) && is_nil (c2t_src s) && negb (c_wr_open s)) eqn:G;
+      [|discriminate]. bools.
+    destruct (eos_prop c); inversion HS; subst; simpl;
+      repeat rewrite app_nil_r; repeat rewrite andb_true_r; auto.
+  - unfold step in HS. destruct (phase_eqb (dir2 s) Running); [|discriminate].
+    destruct (is_nil (firstn n (t2c_src s))); [discriminate|]. inversion HS; subst; simpl.
+    repeat rewrite app_nil_r. repeat rewrite andb_true_r. auto.
+  - unfold step in HS.
+    destruct (phase_eqb (dir2 s) Running && is_nil (t2c_src s) && negb (t_wr_open s)) eqn:G; [|discriminate].
+    bools. inversion HS; subst; simpl. repeat rewrite app_nil_r. repeat rewrite andb_true_r. auto.
+  - unfold step in HS.
+    destruct (phase_eqb (dir1 s) Done && phase_eqb (dir2 s) Done && negb (closed s)); [|discriminate].
+    inversion HS; subst; simpl. repeat rewrite app_nil_r. repeat rewrite andb_true_r. auto.
+Qed.
+
+Lemma client_bytes_cons l tr : client_bytes (l :: tr) = lbl_cbytes l ++ client_bytes tr.
+Proof. destruct l; reflexivity. Qed.
+Lemma target_bytes_cons l tr : target_bytes (l :: tr) = lbl_tbytes l ++ target_bytes tr.
+Proof. destruct l; reflexivity. Qed.
+Lemma client_shut_cons l tr : client_shut (l :: tr) = lbl_cshut l || client_shut tr.
+Proof. destruct l; reflexivity. Qed.
+Lemma target_shut_cons l tr : target_shut (l :: tr) = lbl_tshut l || target_shut tr.
+Proof. destruct l; reflexivity. Qed.
+
+Lemma ghost_run c tr : forall s s',
+  run c s tr = Some s' ->
+  c_sent s' = c_sent s ++ client_bytes tr /\ t_sent s' = t_sent s ++ target_bytes tr /\
+  c_wr_open s' = c_wr_open s && negb (client_shut tr) /\
+  t_wr_open s' = t_wr_open s && negb (target_shut tr).
+Proof.
+  induction tr as [|l tr IH]; intros s s' R.
+  - simpl in R. inversion R; subst. simpl. repeat rewrite app_nil_r. repeat rewrite andb_true_r. auto.
+  - simpl in R. destruct (step c s l) as [s1|] eqn:HS; [|discriminate].
+    apply ghost_step in HS. destruct HS as (A & B & C & D).
+    apply IH in R. destruct R as (A' & B' & C' & D').
+    rewrite client_bytes_cons, target_bytes_cons, client_shut_cons, target_shut_cons.
+    rewrite A', B', C', D', A, B, C, D. repeat rewrite <- app_assoc.
+    repeat rewrite negb_orb. repeat rewrite andb_assoc. auto.
+Qed.
+
+(* ------------------------------------------------------------------ *)
+(* Quiescence                                                           *)
+(* ------------------------------------------------------------------ *)
+
+Definition quiescent (c : cfg) (s : st) : Prop :=
+  forall l, internal l = true -> step c s l = None.
+
+Lemma phase_cases (p : phase) : p = Running \/ p = Done.
+Proof. destruct p; auto. Qed.
+
+(* what quiescentb says, in propositional form *)
+Lemma quiescentb_facts s :
+  quiescentb s = true ->
+  (dir1 s = Running -> rbuf s = [] /\ c2t_src s = [] /\ c_wr_open s = true) /\
+  (dir2 s = Running -> t2c_src s = [] /\ t_wr_open s = true) /\
+  (dir1 s = Done -> dir2 s = Done -> closed s = true).
+Proof.
+  unfold quiescentb. intro Q.
+  destruct (dir1 s) eqn:D1, (dir2 s) eqn:D2; simpl in Q;
+    destruct (rbuf s), (c2t_src s), (t2c_src s), (c_wr_open s), (t_wr_open s), (closed s);
+    simpl in Q; try discriminate; repeat split; intros; try discriminate; auto.
+Qed.
+
+Lemma next_none_quiescentb s : next_internal s = None <-> quiescentb s = true.
+Proof.
+  unfold next_internal, quiescentb.
+  destruct (dir1 s), (dir2 s); simpl;
+    destruct (rbuf s), (c2t_src s), (t2c_src s), (c_wr_open s), (t_wr_open s), (closed s);
+    simpl; split; intro H; try reflexivity; try discriminate.
+Qed.
+
+Lemma next_internal_internal s l : next_internal s = Some l -> internal l = true.
+Proof.
+  unfold next_internal.
+  repeat match goal with |- context[if ?b then _ else _] => destruct b end;
+    intro H; inversion H; reflexivity.
+Qed.
+
+Lemma firstn_length_all {A} (l : list A) : firstn (length l) l = l.
+Proof. apply firstn_all. Qed.
+
+(* the scheduler only proposes enabled labels *)
+Lemma next_internal_enabled c s l : next_internal s = Some l -> exists s', step c s l = Some s'.
+Proof.
+  unfold next_internal.
+  destruct (phase_eqb (dir1 s) Running && negb (is_nil (rbuf s))) eqn:G1.
+  { intro H; inversion H; subst. unfold step. rewrite G1.
+    destruct (buffered c); [destruct (push _ _)|]; eexists; reflexivity. }
+  destruct (phase_eqb (dir1 s) Running && negb (is_nil (c2t_src s))) eqn:G2.
+  { intro H; inversion H; subst. bools. rename H0 into R, H1 into SRC.
+    assert (RB : is_nil (rbuf s) = true).
+    { rewrite R in G1. simpl in G1. apply negb_false_iff in G1. exact G1. }
+    unfold step. rewrite R. simpl. rewrite RB.
+    destruct (push (t_in s) (wbuf s)) as [tin0 w0] eqn:P. apply push_spec in P. destruct P as (_ & _ & L).
+    destruct (negb (buffered c) || is_nil w0).
+    - rewrite firstn_all. apply is_nil_false in SRC. rewrite SRC. eexists; reflexivity.
+    - destruct (push tin0 _) eqn:Q.
+      destruct (is_nil (firstn (Nat.min (length (c2t_src s)) (bufsize - length w0)) (c2t_src s))) eqn:K.
+      + exfalso. bools. destruct (c2t_src s) as [|x xs]; [congruence|].
+        assert (Nat.min (length (x :: xs)) (bufsize - length w0) = S (Nat.pred (Nat.min (length (x :: xs)) (bufsize - length w0)))) as E.
+        { simpl length. lia. }
+        rewrite E in K. simpl in K. discriminate.
+      + eexists; reflexivity. }
+  destruct (phase_eqb (dir1 s) Running && negb (c_wr_open s)) eqn:G3.
+  { intro H; inversion H; subst. bools. rename H0 into R, H1 into O.
+    unfold step. rewrite R in *. simpl in *. apply negb_false_iff in G1, G2. rewrite G1, G2, O. simpl.
+    destruct (eos_prop c); eexists; reflexivity. }
+  destruct (phase_eqb (dir2 s) Running && negb (is_nil (t2c_src s))) eqn:G4.
+  { intro H; inversion H; subst. bools. unfold step. rewrite H0. simpl. rewrite firstn_all.
+    apply is_nil_false in H1. rewrite H1. eexists; reflexivity. }
+  destruct (phase_eqb (dir2 s) Running && negb (t_wr_open s)) eqn:G5.
+  { intro H; inversion H; subst. bools. unfold step. rewrite H0 in *. simpl in *.
+    apply negb_false_iff in G4. rewrite G4, H1. simpl. eexists; reflexivity. }
+  destruct (phase_eqb (dir1 s) Done && phase_eqb (dir2 s) Done && negb (closed s)) eqn:G6.
+  { intro H; inversion H; subst. unfold step. rewrite G6. eexists; reflexivity. }
+  discriminate.
+Qed.
+
+Lemma firstn_nil_of_nil {A} n : firstn n (@nil A) = [].
+Proof. destruct n; reflexivity. Qed.
+
+Lemma quiescentb_sound c s : quiescentb s = true -> quiescent c s.
+Proof.
+  intros Q l IL. apply quiescentb_facts in Q. destruct Q as (Q1 & Q2 & Q3).
+  destruct l; try discriminate; unfold step.
+  - destruct (phase_eqb (dir1 s) Running && negb (is_nil (rbuf s))) eqn:G; [|reflexivity].
+    bools. destruct (Q1 H) as (X & _). congruence.
+  - destruct (phase_eqb (dir1 s) Running && is_nil (rbuf s)) eqn:G; [|reflexivity].
+    bools. destruct (Q1 H) as (_ & X & _). rewrite X.
+    destruct (push (t_in s) (wbuf s)) as [tin0 w0].
+    destruct (negb (buffered c) || is_nil w0).
+    + rewrite firstn_nil_of_nil. reflexivity.
+    + destruct (push tin0 _). rewrite firstn_nil_of_nil. reflexivity.
+  - destruct (phase_eqb (dir1 s) Running && is_nil (rbuf s) && is_nil (c2t_src s) && negb (c_wr_open s)) eqn:G;
+      [|reflexivity]. bools. destruct (Q1 H) as (_ & _ & X). congruence.
+  - destruct (phase_eqb (dir2 s) Running) eqn:G; [|reflexivity]. bools.
+    destruct (Q2 G) as (X & _). rewrite X. rewrite firstn_nil_of_nil. reflexivity.
+  - destruct (phase_eqb (dir2 s) Running && is_nil (t2c_src s) && negb (t_wr_open s)) eqn:G; [|reflexivity].
+    bools. destruct (Q2 H) as (_ & X). congruence.
+  - destruct (phase_eqb (dir1 s) Done && phase_eqb (dir2 s) Done && negb (closed s)) eqn:G; [|reflexivity].
+    bools. rewrite (Q3 H H1) in H0. discriminate.
+Qed.
+
+Lemma quiescentb_iff c s : quiescentb s = true <-> quiescent c s.
+Proof.
+  split; [apply quiescentb_sound|].
+  intro Q. apply next_none_quiescentb. destruct (next_internal s) as [l|] eqn:N; [|reflexivity].
+  exfalso. destruct (next_internal_enabled c s l N) as [s' HS].
+  rewrite (Q l (next_internal_internal s l N)) in HS. discriminate.
+Qed.
+
+(* internal steps terminate *)
+Lemma measure_decreases c s l s' :
+  step c s l = Some s' -> internal l = true -> measure s' < measure s.
+Proof.
+  intros HS IL. destruct l; try discriminate.
+  - unfold step in HS.
+    destruct (phase_eqb (dir1 s) Running && negb (is_nil (rbuf s))) eqn:G; [|discriminate]. bools.
+    assert (0 < length (rbuf s)) by (destruct (rbuf s); [congruence|simpl; lia]).
+    destruct (buffered c); [destruct (push _ _)|]; inversion HS; subst; unfold measure; simpl; lia.
+  - unfold step in HS.
+    destruct (phase_eqb (dir1 s) Running && is_nil (rbuf s)) eqn:G; [|discriminate]. bools.
+    destruct (push (t_in s) (wbuf s)) as [tin0 w0].
+    destruct (negb (buffered c) || is_nil w0).
+    + destruct (is_nil (firstn n (c2t_src s))) eqn:K; [discriminate|]. bools.
+      apply firstn_nonnil_skipn_shorter in K.
+      inversion HS; subst; unfold measure; simpl. rewrite H0. simpl. lia.
+    + destruct (push tin0 _).
+      destruct (is_nil (firstn (Nat.min n (bufsize - length w0)) (c2t_src s))) eqn:K; [discriminate|]. bools.
+      apply firstn_nonnil_skipn_shorter in K.
+      inversion HS; subst; unfold measure; simpl. rewrite H0. simpl. lia.
+  - unfold step in HS.
+    destruct (phase_eqb (dir1 s) Running && is_nil (rbuf s) && is_nil (c2t_src s) && negb (c_wr_open s)) eqn:G;
+      [|discriminate]. bools.
+    destruct (eos_prop c); inversion HS; subst; unfold measure; simpl; rewrite H, H1, H2; simpl; lia.
+  - unfold step in HS. destruct (phase_eqb (dir2 s) Running) eqn:G; [|discriminate].
+    destruct (is_nil (firstn n (t2c_src s))) eqn:K; [discriminate|]. bools.
+    apply firstn_nonnil_skipn_shorter in K.
+    inversion HS; subst; unfold measure; simpl. lia.
+  - unfold step in HS.
+    destruct (phase_eqb (dir2 s) Running && is_nil (t2c_src s) && negb (t_wr_open s)) eqn:G; [|discriminate].
+    bools. inversion HS; subst; unfold measure; simpl. rewrite H, H1. simpl. lia.
+  - unfold step in HS.
+    destruct (phase_eqb (dir1 s) Done && phase_eqb (dir2 s) Done && negb (closed s)) eqn:G; [|discriminate].
+    bools. inversion HS; subst; unfold measure; simpl. rewrite H, H1, H0. simpl. lia.
+Qed.
+
+(* settle never runs out of fuel and ends in a quiescent state reached by internal steps *)
+Lemma settle_ok c : forall fuel s, measure s < fuel ->
+  exists s' tr, settle c fuel s = Some s' /\ quiescentb s' = true
+                /\ Forall (fun l => internal l = true) tr /\ run c s tr = Some s'.
+Proof.
+  induction fuel as [|f IH]; intros s M; [lia|].
+  simpl. destruct (next_internal s) as [l|] eqn:N.
+  - destruct (next_internal_enabled c s l N) as [s1 HS]. rewrite HS.
+    pose proof (next_internal_internal s l N) as IL.
+    pose proof (measure_decreases c s l s1 HS IL) as D.
+    destruct (IH s1) as (s' & tr & S1 & Q & F & R); [lia|].
+    exists s', (l :: tr). split; [exact S1|]. split; [exact Q|]. split.
+    + constructor; assumption.
+    + simpl. rewrite HS. exact R.
+  - exists s, []. split; [reflexivity|]. split; [apply next_none_quiescentb; exact N|].
+    split; [constructor|reflexivity].
+Qed.
+
+Lemma internal_no_env tr : Forall (fun l => internal l = true) tr ->
+  client_bytes tr = [] /\ target_bytes tr = [] /\ client_shut tr = false /\ target_shut tr = false.
+Proof.
+  induction 1 as [|l tr IL F IH]; [simpl; auto|].
+  destruct IH as (A & B & C & D).
+  rewrite client_bytes_cons, target_bytes_cons, client_shut_cons, target_shut_cons, A, B, C, D.
+  destruct l; try discriminate; simpl; auto.
+Qed.
+
+(* ------------------------------------------------------------------ *)
+(* Safety                                                               *)
+(* ------------------------------------------------------------------ *)
+
+Lemma prefix_c2t c e p tr s : reachable c e p tr s ->
+  t_in s ++ wbuf s ++ rbuf s ++ c2t_src s = c_sent s.
+Proof. intro R. apply (i_c2t c s (inv_reachable _ _ _ _ _ R)). Qed.
+
+Lemma prefix_t2c c e p tr s : reachable c e p tr s -> c_in s ++ t2c_src s = t_sent s.
+Proof. intro R. apply (i_t2c c s (inv_reachable _ _ _ _ _ R)). Qed.
+
+Lemma sent_is_written c e p tr s : reachable c e p tr s ->
+  c_sent s = e ++ client_bytes tr /\ t_sent s = p ++ target_bytes tr /\
+  c_wr_open s = negb (client_shut tr) /\ t_wr_open s = negb (target_shut tr).
+Proof. intro R. apply ghost_run in R. simpl in R. exact R. Qed.
+
+Lemma no_premature_eos_inv c s : Inv c s ->
+  (t_eos s = true -> c_wr_open s = false /\ t_in s = c_sent s) /\
+  (c_eos s = true -> t_wr_open s = false /\ c_in s = t_sent s).
+Proof.
+  intro I. open_inv I. split; intro E.
+  - destruct (Ite E) as (D & W). destruct (Id1 D) as (O & RB & SRC).
+    split; [exact O|]. rewrite <- Ic2t. rewrite W, RB, SRC. repeat rewrite app_nil_r. reflexivity.
+  - pose proof (Ice E) as D. destruct (Id2 D) as (O & SRC).
+    split; [exact O|]. rewrite <- It2c. rewrite SRC. rewrite app_nil_r. reflexivity.
+Qed.
+
+Lemma released_only_when_done_inv c s : Inv c s -> closed s = true ->
+  c_wr_open s = false /\ t_wr_open s = false /\ t_in s = c_sent s /\ c_in s = t_sent s.
+Proof.
+  intros I CL. pose proof (no_premature_eos_inv c s I) as (A & B).
+  destruct (i_cl c s I CL) as (_ & _ & TE & CE).
+  destruct (A TE), (B CE). auto.
+Qed.
+
+(* ------------------------------------------------------------------ *)
+(* Liveness as quiescence                                               *)
+(* ------------------------------------------------------------------ *)
+
+Lemma quiescent_drained c s : Inv c s -> quiescentb s = true ->
+  rbuf s = [] /\ c2t_src s = [] /\ t2c_src s = [].
+Proof.
+  intros I Q. apply quiescentb_facts in Q. destruct Q as (Q1 & Q2 & _). open_inv I.
+  destruct (phase_cases (dir1 s)) as [D1|D1], (phase_cases (dir2 s)) as [D2|D2];
+    try (destruct (Q1 D1) as (? & ? & ?)); try (destruct (Q2 D2) as (? & ?));
+    try (destruct (Id1 D1) as (? & ? & ?)); try (destruct (Id2 D2) as (? & ?)); auto.
+Qed.
+
+Lemma delivery_quiescent_inv c s : Inv c s -> quiescentb s = true -> wbuf s = [] ->
+  t_in s = c_sent s /\ c_in s = t_sent s.
+Proof.
+  intros I Q W. destruct (quiescent_drained c s I Q) as (A & B & C).
+  split.
+  - rewrite <- (i_c2t c s I). rewrite W, A, B. repeat rewrite app_nil_r. reflexivity.
+  - rewrite <- (i_t2c c s I). rewrite C. rewrite app_nil_r. reflexivity.
+Qed.
+
+Lemma eos_quiescent_inv c s : eos_prop c = true -> Inv c s -> quiescentb s = true ->
+  (c_wr_open s = false -> t_eos s = true /\ t_in s = c_sent s) /\
+  (t_wr_open s = false -> c_eos s = true /\ c_in s = t_sent s) /\
+  (c_wr_open s = false -> t_wr_open s = false -> closed s = true).
+Proof.
+  intros EP I Q. pose proof (quiescentb_facts s Q) as (Q1 & Q2 & Q3).
+  pose proof (no_premature_eos_inv c s I) as (PA & PB).
+  assert (D1 : c_wr_open s = false -> dir1 s = Done).
+  { intro O. destruct (phase_cases (dir1 s)) as [D|D]; [|exact D].
+    destruct (Q1 D) as (_ & _ & X). congruence. }
+  assert (D2 : t_wr_open s = false -> dir2 s = Done).
+  { intro O. destruct (phase_cases (dir2 s)) as [D|D]; [|exact D].
+    destruct (Q2 D) as (_ & X). congruence. }
+  split; [|split].
+  - intro O. destruct (i_d1e c s I (D1 O) EP) as (TE & _). split; [exact TE|]. apply PA; exact TE.
+  - intro O. pose proof (i_d2e c s I (D2 O) EP) as CE. split; [exact CE|]. apply PB; exact CE.
+  - intros O1 O2. apply Q3; auto.
+Qed.
+
+(* without the repairs: end of stream reaches the other end only once BOTH ends have shut *)
+Lemma eos_quiescent_weak_inv c s : Inv c s -> quiescentb s = true ->
+  c_wr_open s = false -> t_wr_open s = false ->
+  closed s = true /\ t_eos s = true /\ c_eos s = true /\ t_in s = c_sent s /\ c_in s = t_sent s.
+Proof.
+  intros I Q O1 O2. pose proof (quiescentb_facts s Q) as (Q1 & Q2 & Q3).
+  assert (D1 : dir1 s = Done).
+  { destruct (phase_cases (dir1 s)) as [D|D]; [|exact D]. destruct (Q1 D) as (_ & _ & X). congruence. }
+  assert (D2 : dir2 s = Done).
+  { destruct (phase_cases (dir2 s)) as [D|D]; [|exact D]. destruct (Q2 D) as (_ & X). congruence. }
+  pose proof (Q3 D1 D2) as CL. destruct (i_cl c s I CL) as (_ & _ & TE & CE).
+  destruct (released_only_when_done_inv c s I CL) as (_ & _ & A & B). auto.
+Qed.
+
+(* the buffer stays empty when nothing arrived with the CONNECT head *)
+Lemma nobuf_without_early_step c s l s' :
+  rbuf s = [] /\ wbuf s = [] -> step c s l = Some s' -> rbuf s' = [] /\ wbuf s' = [].
+Proof.
+  intros (RB & W) HS. destruct l; unfold step in HS.
+  - destruct (c_wr_open s); [|discriminate]. inversion HS; subst; simpl; auto.
+  - destruct (t_wr_open s); [|discriminate]. inversion HS; subst; simpl; auto.
+  - destruct (c_wr_open s); [|discriminate]. inversion HS; subst; simpl; auto.
+  - destruct (t_wr_open s); [|discriminate]. inversion HS; subst; simpl; auto.
+  - rewrite RB in HS. simpl in HS. rewrite andb_false_r in HS. discriminate.
+  - destruct (phase_eqb (dir1 s) Running && is_nil (rbuf s)); [|discriminate].
+    rewrite W in HS. unfold push in HS at 1. simpl length in HS.
+    destruct (Nat.leb bufsize 0) eqn:L.
+    { apply Nat.leb_le in L. pose proof bufsize_pos. lia. }
+    simpl is_nil in HS. rewrite orb_true_r in HS.
+    destruct (is_nil (firstn n (c2t_src s))); [discriminate|]. inversion HS; subst; simpl; auto.
+  - destruct (phase_eqb (dir1 s) Running && is_nil (rbuf s) && is_nil (c2t_src s) && negb (c_wr_open s));
+      [|discriminate]. destruct (eos_prop c); inversion HS; subst; simpl; auto.
+  - destruct (phase_eqb (dir2 s) Running); [|discriminate].
+    destruct (is_nil (firstn n (t2c_src s))); [discriminate|]. inversion HS; subst; simpl; auto.
+  - destruct (phase_eqb (dir2 s) Running && is_nil (t2c_src s) && negb (t_wr_open s)); [|discriminate].
+    inversion HS; subst; simpl; auto.
+  - destruct (phase_eqb (dir1 s) Done && phase_eqb (dir2 s) Done && negb (closed s)); [|discriminate].
+    inversion HS; subst; simpl; auto.
+Qed.
+
+Lemma nobuf_without_early_run c tr : forall s s',
+  rbuf s = [] /\ wbuf s = [] -> run c s tr = Some s' -> rbuf s' = [] /\ wbuf s' = [].
+Proof.
+  induction tr as [|l tr IH]; simpl; intros s s' H R.
+  - inversion R; subst; exact H.
+  - destruct (step c s l) as [s1|] eqn:HS; [|discriminate].
+    eapply IH; [eapply nobuf_without_early_step; eassumption|exact R].
+Qed.
+
+(* ------------------------------------------------------------------ *)
+(* Checkpoints: a quiescent state shows exactly the ideal tunnel        *)
+(* ------------------------------------------------------------------ *)
+
+Definition ideal_view (s : st) : view :=
+  mkView (c_sent s) (negb (c_wr_open s)) (t_sent s) (negb (t_wr_open s))
+         (negb (c_wr_open s) && negb (t_wr_open s)).
+
+Lemma quiescent_view c s : eos_prop c = true -> Inv c s -> quiescentb s = true -> wbuf s = [] ->
+  view_of s = ideal_view s.
+Proof.
+  intros EP I Q W.
+  destruct (delivery_quiescent_inv c s I Q W) as (A & B).
+  destruct (eos_quiescent_inv c s EP I Q) as (E1 & E2 & E3).
+  pose proof (no_premature_eos_inv c s I) as (P1 & P2).
+  pose proof (released_only_when_done_inv c s I) as RL.
+  unfold view_of, ideal_view. rewrite A, B.
+  assert (TE : t_eos s = negb (c_wr_open s)).
+  { destruct (c_wr_open s) eqn:O, (t_eos s) eqn:T; simpl; try reflexivity; exfalso;
+      intuition congruence. }
+  assert (CE : c_eos s = negb (t_wr_open s)).
+  { destruct (t_wr_open s) eqn:O, (c_eos s) eqn:T; simpl; try reflexivity; exfalso;
+      intuition congruence. }
+  assert (CL : closed s = negb (c_wr_open s) && negb (t_wr_open s)).
+  { destruct (closed s) eqn:K, (c_wr_open s) eqn:O1, (t_wr_open s) eqn:O2; simpl; try reflexivity;
+      exfalso; intuition congruence. }
+  rewrite TE, CE, CL. reflexivity.
+Qed.
+
+Lemma checkpoint_view e p tr s :
+  reachable repaired e p tr s -> quiescentb s = true -> view_of s = spec_view e p tr.
+Proof.
+  intros R Q. pose proof (inv_reachable _ _ _ _ _ R) as I.
+  rewrite (quiescent_view repaired s eq_refl I Q (i_nobuf _ _ I eq_refl)).
+  destruct (sent_is_written _ _ _ _ _ R) as (A & B & C & D).
+  unfold ideal_view, spec_view. rewrite A, B, C, D. repeat rewrite negb_involutive. reflexivity.
+Qed.
+
+Lemma client_bytes_app a b : client_bytes (a ++ b) = client_bytes a ++ client_bytes b.
+Proof.
+  induction a as [|l a IH]; [reflexivity|]. rewrite <- app_comm_cons.
+  rewrite !client_bytes_cons, IH, app_assoc. reflexivity.
+Qed.
+Lemma target_bytes_app a b : target_bytes (a ++ b) = target_bytes a ++ target_bytes b.
+Proof.
+  induction a as [|l a IH]; [reflexivity|]. rewrite <- app_comm_cons.
+  rewrite !target_bytes_cons, IH, app_assoc. reflexivity.
+Qed.
+Lemma client_shut_app a b : client_shut (a ++ b) = client_shut a || client_shut b.
+Proof. apply existsb_app. Qed.
+Lemma target_shut_app a b : target_shut (a ++ b) = target_shut a || target_shut b.
+Proof. apply existsb_app. Qed.
+
+Lemma run_script_meets_spec_gen e p : forall ps s pre vs,
+  Inv repaired s ->
+  c_sent s = e ++ client_bytes pre -> t_sent s = p ++ target_bytes pre ->
+  c_wr_open s = negb (client_shut pre) -> t_wr_open s = negb (target_shut pre) ->
+  run_script repaired s ps = Some vs -> vs = spec_views_from e p pre ps.
+Proof.
+  induction ps as [|p0 ps IH]; intros s pre vs I A B C D RS.
+  - simpl in RS. inversion RS. reflexivity.
+  - cbn [run_script] in RS.
+    destruct (run repaired s (phase_labels p0)) as [s1|] eqn:R1; [|discriminate].
+    destruct (settle repaired (S (measure s1)) s1) as [s2|] eqn:S2; [|discriminate].
+    destruct (run_script repaired s2 ps) as [vs'|] eqn:RS'; [|discriminate].
+    inversion RS; subst vs; clear RS.
+    destruct (settle_ok repaired (S (measure s1)) s1) as (s2' & tr2 & S2' & Q & F & R2); [lia|].
+    rewrite S2 in S2'. inversion S2'; subst s2'; clear S2'.
+    pose proof (inv_run _ _ _ _ I R1) as I1. pose proof (inv_run _ _ _ _ I1 R2) as I2.
+    destruct (ghost_run _ _ _ _ R1) as (A1 & B1 & C1 & D1).
+    destruct (ghost_run _ _ _ _ R2) as (A2 & B2 & C2 & D2).
+    destruct (internal_no_env tr2 F) as (N1 & N2 & N3 & N4).
+    rewrite N1, N2, N3, N4 in *. rewrite app_nil_r in A2, B2. simpl in C2, D2. rewrite andb_true_r in C2, D2.
+    set (pre' := pre ++ phase_labels p0).
+    assert (A' : c_sent s2 = e ++ client_bytes pre').
+    { unfold pre'. rewrite A2, A1, A, client_bytes_app, app_assoc. reflexivity. }
+    assert (B' : t_sent s2 = p ++ target_bytes pre').
+    { unfold pre'. rewrite B2, B1, B, target_bytes_app, app_assoc. reflexivity. }
+    assert (C' : c_wr_open s2 = negb (client_shut pre')).
+    { unfold pre'. rewrite C2, C1, C, client_shut_app, negb_orb. reflexivity. }
+    assert (D' : t_wr_open s2 = negb (target_shut pre')).
+    { unfold pre'. rewrite D2, D1, D, target_shut_app, negb_orb. reflexivity. }
+    simpl. fold pre'. f_equal.
+    + rewrite (quiescent_view repaired s2 eq_refl I2 Q (i_nobuf _ _ I2 eq_refl)).
+      unfold ideal_view, spec_view. rewrite A', B', C', D'. repeat rewrite negb_involutive. reflexivity.
+    + eapply IH; eassumption.
+Qed.
+
+Lemma run_script_meets_spec e p ps vs :
+  run_script repaired (init e p) ps = Some vs -> vs = spec_views e p ps.
+Proof.
+  intro RS. unfold spec_views.
+  eapply (run_script_meets_spec_gen e p ps (init e p) []); try exact RS; simpl;
+    try rewrite app_nil_r; try reflexivity. apply inv_init.
+Qed.
+
+(* ------------------------------------------------------------------ *)
+(* The oracle                                                           *)
+(* ------------------------------------------------------------------ *)
+
+Lemma bytes_eqb_iff a : forall b, bytes_eqb a b = true <-> a = b.
+Proof.
+  induction a as [|x a IH]; intros [|y b]; simpl; split; intro H; try reflexivity; try discriminate.
+  - apply andb_true_iff in H. destruct H as (H1 & H2). apply Ascii.eqb_eq in H1. apply IH in H2. congruence.
+  - inversion H; subst. rewrite Ascii.eqb_refl. simpl. apply IH. reflexivity.
+Qed.
+
+Lemma eobs_ok_iff n e o : eobs_ok n e (Some o) = true <-> o = mkEobs n true e.
+Proof.
+  destruct o as [on op oe]. simpl. split; intro H.
+  - apply andb_true_iff in H. destruct H as (H & H3). apply andb_true_iff in H. destruct H as (H1 & H2).
+    apply N.eqb_eq in H1. apply eqb_prop in H3. simpl in *. subst. reflexivity.
+  - inversion H; subst. rewrite N.eqb_refl, eqb_reflx. reflexivity.
+Qed.
+
+(* what the harness measured at one end is accepted iff that end received
+   exactly the sent stream and saw end-of-stream exactly when it should *)
+Lemma oracle_end r sent eos want :
+  eobs_ok (N.of_nat (length sent)) want (Some (measure_end r sent eos)) = true
+  <-> r = sent /\ eos = want.
+Proof.
+  rewrite eobs_ok_iff. unfold measure_end. split.
+  - intro H. inversion H as [[H1 H2 H3]]. apply Nat2N.inj in H1.
+    rewrite H1 in H2. rewrite firstn_all in H2. apply bytes_eqb_iff in H2. auto.
+  - intros (-> & ->). rewrite firstn_all. f_equal. apply bytes_eqb_iff. reflexivity.
+Qed.
+
+Fixpoint ideal_from (cn tn : N) (cs ts : bool) (ps : list nphase) (obs : list cobs) : Prop :=
+  match ps, obs with
+  | [], [] => True
+  | p :: ps', o :: obs' =>
+      let cn' := (cn + np_c p)%N in
+      let tn' := (tn + np_t p)%N in
+      let cs' := cs || np_cshut p in
+      let ts' := ts || np_tshut p in
+      (forall e, ob_t o = Some e -> e = mkEobs cn' true cs') /\
+      (forall e, ob_c o = Some e -> e = mkEobs tn' true ts') /\
+      ideal_from cn' tn' cs' ts' ps' obs'
+  | _, _ => False
+  end.
+
+Lemma opt_ok_iff n e (o : option eobs) :
+  eobs_ok n e o = true <-> (forall x, o = Some x -> x = mkEobs n true e).
+Proof.
+  destruct o as [x|].
+  - rewrite eobs_ok_iff. split; [intros -> y Hy; inversion Hy; reflexivity|intro H; apply H; reflexivity].
+  - simpl. split; [intros _ x Hx; discriminate|reflexivity].
+Qed.
+
+Lemma c04_ok_from_iff : forall ps obs cn tn cs ts,
+  c04_ok_from cn tn cs ts ps obs = true <-> ideal_from cn tn cs ts ps obs.
+Proof.
+  induction ps as [|p ps IH]; intros [|o obs] cn tn cs ts; simpl; try (split; [discriminate|tauto]).
+  - split; auto.
+  - rewrite !andb_true_iff, !opt_ok_iff, IH. tauto.
+Qed.
+
+Lemma released_ok_iff ps rel :
+  released_ok ps rel = true <->
+  (all_shut ps = true /\ rel = Some true) \/ (all_shut ps = false /\ rel = None).
+Proof.
+  unfold released_ok. destruct rel as [[|]|]; destruct (all_shut ps); simpl; split; intro H;
+    try discriminate; try reflexivity; auto;
+    destruct H as [(A & B)|(A & B)]; try discriminate; reflexivity.
+Qed.
+
+Lemma c04_ok_iff early peeked ps obs rel :
+  c04_ok early peeked ps obs rel = true <->
+  ideal_from early peeked false false ps obs /\
+  ((all_shut ps = true /\ rel = Some true) \/ (all_shut ps = false /\ rel = None)).
+Proof. unfold c04_ok. rewrite andb_true_iff, c04_ok_from_iff, released_ok_iff. tauto. Qed.
+
+(* CONNECT failure *)
+Lemma connect_fail_502 : connect_response DialErr = mkResp 502 true false.
+Proof. reflexivity. Qed.
+
+Lemma fail_ok_iff st w : fail_ok st w = true <-> st = 502%N /\ w = true.
+Proof. unfold fail_ok. rewrite andb_true_iff, N.eqb_eq. tauto. Qed.
+
+(* ------------------------------------------------------------------ *)
+(* Statements over reachable states, as used in Properties.v            *)
+(* ------------------------------------------------------------------ *)
+
+Lemma no_premature_eos c e p tr s : reachable c e p tr s ->
+  (t_eos s = true -> c_wr_open s = false /\ t_in s = c_sent s) /\
+  (c_eos s = true -> t_wr_open s = false /\ c_in s = t_sent s).
+Proof. intro R. exact (no_premature_eos_inv c s (inv_reachable _ _ _ _ _ R)). Qed.
+
+Lemma released_only_when_both_done c e p tr s : reachable c e p tr s -> closed s = true ->
+  c_wr_open s = false /\ t_wr_open s = false /\ t_in s = c_sent s /\ c_in s = t_sent s.
+Proof. intro R. exact (released_only_when_done_inv c s (inv_reachable _ _ _ _ _ R)). Qed.
+
+Lemma settle_reaches_quiescence c s :
+  exists s' tr, settle c (S (measure s)) s = Some s' /\ quiescentb s' = true
+                /\ Forall (fun l => internal l = true) tr /\ run c s tr = Some s'.
+Proof. apply settle_ok. apply Nat.lt_succ_diag_r. Qed.
+
+Lemma delivery_quiescent e p tr s :
+  reachable repaired e p tr s -> quiescentb s = true ->
+  t_in s = c_sent s /\ c_in s = t_sent s.
+Proof.
+  intros R Q. pose proof (inv_reachable _ _ _ _ _ R) as I.
+  exact (delivery_quiescent_inv repaired s I Q (i_nobuf _ _ I eq_refl)).
+Qed.
+
+Lemma eos_quiescent e p tr s :
+  reachable repaired e p tr s -> quiescentb s = true ->
+  (c_wr_open s = false -> t_eos s = true /\ t_in s = c_sent s) /\
+  (t_wr_open s = false -> c_eos s = true /\ c_in s = t_sent s) /\
+  (c_wr_open s = false -> t_wr_open s = false -> closed s = true).
+Proof.
+  intros R Q. exact (eos_quiescent_inv repaired s eq_refl (inv_reachable _ _ _ _ _ R) Q).
+Qed.
+
+Lemma delivery_quiescent_original_partial p tr s :
+  reachable original [] p tr s -> quiescentb s = true ->
+  t_in s = c_sent s /\ c_in s = t_sent s.
+Proof.
+  intros R Q. pose proof (inv_reachable _ _ _ _ _ R) as I.
+  apply (delivery_quiescent_inv original s I Q).
+  assert (H0 : rbuf (init [] p) = [] /\ wbuf (init [] p) = []) by (simpl; auto).
+  exact (proj2 (nobuf_without_early_run original tr _ _ H0 R)).
+Qed.
+
+Lemma eos_quiescent_original_partial e p tr s :
+  reachable original e p tr s -> quiescentb s = true ->
+  c_wr_open s = false -> t_wr_open s = false ->
+  closed s = true /\ t_eos s = true /\ c_eos s = true /\ t_in s = c_sent s /\ c_in s = t_sent s.
+Proof. intros R Q. exact (eos_quiescent_weak_inv original s (inv_reachable _ _ _ _ _ R) Q). Qed.
+
+Open Scope char_scope.
+
+Lemma delivery_quiescent_original_refuted :
+  exists early tr s, reachable original early [] tr s /\ quiescentb s = true /\ t_in s <> c_sent s.
+Proof.
+  exists ["a"], [Drain1; ClientSend ["b"; "c"]; Copy1 2].
+  eexists. split; [vm_compute; reflexivity|]. split; [vm_compute; reflexivity|].
+  vm_compute. discriminate.
+Qed.
+
+Lemma eos_quiescent_original_refuted :
+  exists tr s, reachable original [] [] tr s /\ quiescentb s = true /\
+               t_wr_open s = false /\ c_eos s = false.
+Proof.
+  exists [TargetShut; Eof2]. eexists.
+  split; [vm_compute; reflexivity|]. repeat split; vm_compute; reflexivity.
+Qed.
+
+Lemma connect_fail_both :
+  connect_response DialErr = mkResp 502 true false /\
+  forall st w, fail_ok st w = true <-> st = 502%N /\ w = true.
+Proof. split; [exact connect_fail_502|exact fail_ok_iff]. Qed.
+
+(* ------------------------------------------------------------------ *)
+(* The oracle accepts what the harness would measure on the ideal views *)
+(* ------------------------------------------------------------------ *)
+
+Definition nphase_of (p : pact) : nphase :=
+  mkNphase (N.of_nat (length (pa_c p))) (pa_cshut p) (N.of_nat (length (pa_t p))) (pa_tshut p).
+
+Lemma phase_labels_env p :
+  client_bytes (phase_labels p) = pa_c p /\ target_bytes (phase_labels p) = pa_t p /\
+  client_shut (phase_labels p) = pa_cshut p /\ target_shut (phase_labels p) = pa_tshut p.
+Proof.
+  unfold phase_labels. destruct p as [c cs t ts]; simpl.
+  destruct c, t, cs, ts; simpl; repeat rewrite app_nil_r; auto.
+Qed.
+
+Lemma measure_end_prefix a rest eos :
+  measure_end a (a ++ rest) eos = mkEobs (N.of_nat (length a)) true eos.
+Proof.
+  unfold measure_end. f_equal.
+  rewrite firstn_app, firstn_all, Nat.sub_diag. simpl. rewrite app_nil_r.
+  apply bytes_eqb_iff. reflexivity.
+Qed.
+
+Lemma eobs_ok_refl n e : eobs_ok n e (Some (mkEobs n true e)) = true.
+Proof. apply eobs_ok_iff. reflexivity. Qed.
+
+Lemma measure_view_ideal a r1 b r2 cs ts cl :
+  measure_view (a ++ r1) (b ++ r2) (mkView a cs b ts cl)
+  = mkCobs (Some (mkEobs (N.of_nat (length a)) true cs)) (Some (mkEobs (N.of_nat (length b)) true ts)).
+Proof. unfold measure_view. simpl. rewrite !measure_end_prefix. reflexivity. Qed.
+
+Lemma oracle_accepts_ideal_gen e p : forall ps pre,
+  c04_ok_from (N.of_nat (length (e ++ client_bytes pre))) (N.of_nat (length (p ++ target_bytes pre)))
+              (client_shut pre) (target_shut pre) (map nphase_of ps)
+              (map (measure_view ((e ++ client_bytes pre) ++ concat (map pa_c ps))
+                                 ((p ++ target_bytes pre) ++ concat (map pa_t ps)))
+                   (spec_views_from e p pre ps)) = true.
+Proof.
+  induction ps as [|p0 ps IH]; intro pre; [reflexivity|].
+  cbn [map spec_views_from c04_ok_from concat].
+  destruct (phase_labels_env p0) as (E1 & E2 & E3 & E4).
+  specialize (IH (pre ++ phase_labels p0)).
+  set (A := (e ++ client_bytes pre) ++ pa_c p0).
+  set (B := (p ++ target_bytes pre) ++ pa_t p0).
+  assert (EA : e ++ client_bytes (pre ++ phase_labels p0) = A).
+  { unfold A. rewrite client_bytes_app, E1, app_assoc. reflexivity. }
+  assert (EB : p ++ target_bytes (pre ++ phase_labels p0) = B).
+  { unfold B. rewrite target_bytes_app, E2, app_assoc. reflexivity. }
+  assert (EC : client_shut (pre ++ phase_labels p0) = client_shut pre || pa_cshut p0).
+  { rewrite client_shut_app, E3. reflexivity. }
+  assert (ED : target_shut (pre ++ phase_labels p0) = target_shut pre || pa_tshut p0).
+  { rewrite target_shut_app, E4. reflexivity. }
+  rewrite EA, EB, EC, ED in IH.
+  unfold spec_view. rewrite EA, EB, EC, ED.
+  rewrite (app_assoc (e ++ client_bytes pre) (pa_c p0)).
+  rewrite (app_assoc (p ++ target_bytes pre) (pa_t p0)).
+  fold A. fold B.
+  rewrite measure_view_ideal. cbn [ob_t ob_c nphase_of np_c np_t np_cshut np_tshut].
+  assert (LA : (N.of_nat (length (e ++ client_bytes pre)) + N.of_nat (length (pa_c p0)))%N = N.of_nat (length A)).
+  { unfold A. rewrite (app_length (e ++ client_bytes pre)), Nat2N.inj_add. reflexivity. }
+  assert (LB : (N.of_nat (length (p ++ target_bytes pre)) + N.of_nat (length (pa_t p0)))%N = N.of_nat (length B)).
+  { unfold B. rewrite (app_length (p ++ target_bytes pre)), Nat2N.inj_add. reflexivity. }
+  rewrite LA, LB. rewrite !eobs_ok_refl. simpl andb. exact IH.
+Qed.
+
+Lemma oracle_accepts_ideal e p ps :
+  c04_ok_from (N.of_nat (length e)) (N.of_nat (length p)) false false (map nphase_of ps)
+              (map (measure_view (e ++ concat (map pa_c ps)) (p ++ concat (map pa_t ps)))
+                   (spec_views e p ps)) = true.
+Proof.
+  pose proof (oracle_accepts_ideal_gen e p ps []) as H. simpl in H.
+  rewrite !app_nil_r in H. exact H.
 Qed.
